@@ -177,9 +177,10 @@ fn do_op(inj: &mut InjectorPP, syms: &Syms, op: &str) -> String {
         }
         "MPFAIL" => {
             let tf: F1 = unsafe { std::mem::transmute(syms.addr[t[1]] as *const ()) };
-            interpose::MPROTECT_FAIL_AT.store(interpose::MPROTECT_CALLS.load(SeqCst) + 1, SeqCst);
+            // the kernel refuses to change the protection of the target's page for as long as the attempt (and the unwinding out of it) lasts
+            interpose::MPROTECT_FAIL_PAGE.store((syms.addr[t[1]] & !0xfff) as i64, SeqCst);
             let r = catch_unwind(AssertUnwindSafe(|| inj.when_called(injectorpp::func!(fn (tf)(u64) -> u64)).will_execute_raw(fake_ptr("raw", 0))));
-            interpose::MPROTECT_FAIL_AT.store(0, SeqCst);
+            interpose::MPROTECT_FAIL_PAGE.store(0, SeqCst);
             if let Err(e) = r { std::panic::resume_unwind(e) }
             "installed".into()
         }
